@@ -1,12 +1,12 @@
 package checks
 
 import (
-	"math/big"
 	"bytes"
 	"crypto/x509"
 	"crypto/x509/pkix"
 	"encoding/asn1"
 	"fmt"
+	"math/big"
 	"os"
 	"path/filepath"
 	"strings"
@@ -447,6 +447,36 @@ func runC02(r *mc.Run) {
 		add("inline-"+is.name+",T", &ccpb.RootOfTrust{Cabundles: []string{inI, inT}}, []bool{true, false})
 		add("inline-"+is.name+"+T-one-bundle", &ccpb.RootOfTrust{Cabundles: []string{inI + inT}}, []bool{true, false})
 		add("inline-F,"+is.name+",T", &ccpb.RootOfTrust{Cabundles: []string{string(world.PEM(F.Root)), inI, inT}}, []bool{true, true})
+	}
+	// bundle files whose NAMES contain characters a pattern matcher gives a meaning to, next to files such a pattern
+	// would match: a configured path names one file, literally. Each pair: the listed file holds F's root, the
+	// neighbour holds T's root — and the other way round
+	{
+		gdir := filepath.Join(dir, "names")
+		os.MkdirAll(gdir, 0o755)
+		type pair struct{ listed, neighbour string }
+		for gi, pr := range []pair{{"roots[1].pem", "roots1.pem"}, {"roots-v?.pem", "roots-v2.pem"}, {"*.pem", "all.pem"}, {"roots[a-z].pem", "rootsx.pem"},
+			{"roots\\*.pem", "roots*.pem"}, {"{a,b}.pem", "a.pem"}, {"roots~.pem", "roots.pem"}, {"roots .pem", "roots.pem"}, {"%2e%2e.pem", "...pem"}} {
+			for flip := 0; flip < 2; flip++ {
+				sub := filepath.Join(gdir, fmt.Sprintf("%d-%d", gi, flip))
+				os.MkdirAll(sub, 0o755)
+				listedCert, neighbourCert := F.Root, T.Root
+				lists := []bool{false, true}
+				if flip == 1 {
+					listedCert, neighbourCert = T.Root, F.Root
+					lists = []bool{true, false}
+				}
+				lp, np := filepath.Join(sub, pr.listed), filepath.Join(sub, pr.neighbour)
+				if os.WriteFile(np, world.PEM(neighbourCert), 0o600) != nil || os.WriteFile(lp, world.PEM(listedCert), 0o600) != nil {
+					continue
+				}
+				cfgs = append(cfgs, struct {
+					name  string
+					rot   *ccpb.RootOfTrust
+					lists []bool
+				}{fmt.Sprintf("file-named-%q-next-to-%q,listed-holds-%s", pr.listed, pr.neighbour, map[int]string{0: "F", 1: "T"}[flip]), &ccpb.RootOfTrust{CabundlePaths: []string{lp}}, lists})
+			}
+		}
 	}
 	for _, cfg := range cfgs {
 		for qi, w := range baseW {
